@@ -83,8 +83,14 @@ def history_violation(hist, expected, what):
 
 def run_one(ch, env):
     cls = pick_stage(ch)
-    stage = cls(ch)
+    stages.LARGE_OK[0] = True
+    try:
+        stage = cls(ch)
+    finally:
+        stages.LARGE_OK[0] = False
     workers = common.draw_workers(ch, parallel_only=True)
+    if getattr(stage, "large", False):
+        workers = min(workers, 3)
     nyield = ch.draw(3, kind="cb_yields")
     expected = stage.expected()
     res = {"config": dict(stage.describe(), workers=workers, cb_yields=nyield, n_items=sum(expected.values())),
@@ -117,7 +123,9 @@ def run_one(ch, env):
     if needs_dir:
         d = env.fresh_dir()
         stage.populate(d)
-    sim = Sim(ch, step_cap=60000)
+    sim = Sim(ch, step_cap=400000 if getattr(stage, "large", False) else 60000)
+    if getattr(stage, "large", False):
+        res["extra"]["large_item_set"] = 1
     sim.rootdir = d
     res["config"].update(common.sched_config(sim))
     rec = stages.Recorder(sim, nyield)
